@@ -650,6 +650,36 @@ def cutsweep_oracle(c, obs):
                             % (s0, d, fo, wp, d))
     if seen != len(c["calls"]):
         msgs.append("cutoff sweep produced %d of %d summaries" % (seen, len(c["calls"])))
+    # the distances against exact rational Dijkstra on the decimals the weights stand for (k/10), to 1e-9
+    directed = bool(c["spec"][0])
+    store = {}
+    for (u, v, w, _a) in c["edges"]:
+        k = (u, v) if directed or u <= v else (v, u)
+        store[k] = Fraction(int(round(w * 10)), 10)          # KeepLast
+    adj = {}
+    for (u, v), w in store.items():
+        adj.setdefault(u, []).append((v, w))
+        if not directed:
+            adj.setdefault(v, []).append((u, w))
+    for (k, rows, fl) in obs:
+        if k != 5082 or not rows:
+            continue
+        s0 = rows[0][0]
+        dist, todo = {s0: Fraction(0)}, [s0]
+        while todo:                                            # Bellman-Ford style relaxation (tiny graphs)
+            x = todo.pop()
+            for (y, w) in adj.get(x, []):
+                if y not in dist or dist[x] + w < dist[y]:
+                    dist[y] = dist[x] + w
+                    todo.append(y)
+        got = {r[1]: f for r, f in zip(rows, fl)}
+        if set(got) != set(dist):
+            msgs.append("weighted single_source(%d) reports the nodes %s, reachable are %s" % (s0, sorted(got), sorted(dist)))
+        else:
+            for y, d in dist.items():
+                if abs(got[y] - float(d)) > 1e-9 * max(1.0, float(d)):
+                    msgs.append("weighted single_source(%d): distance to %d is %r, the edge list gives %s" % (s0, y, got[y], d))
+                    break
     return msgs
 
 
